@@ -35,8 +35,8 @@ LEVEL_TEXT = ("Exploration of histories: thousands of multi-client operation seq
               "any network event during dry runs, and cookie confinement/replay per client instance.")
 LEVEL_NOTE = "Trusts the recording fake (which replaces only http_open/https_open) and the audit hook as ground truth for 'no network activity'."
 DESIGN_REF = "DESIGN.md §3 C14"
-MIN_COUNTERS = {"quick": {"scenarios": 780, "ops_checked": 2500, "dryrun_ops": 500, "posts_checked": 2200, "cookie_requests_checked": 2200, "loopback_scenarios": 60, "audit_net_events": 3000, "ops_with_transport_failure": 400},
-                "thorough": {"scenarios": 15000, "ops_checked": 50000, "dryrun_ops": 10000, "posts_checked": 50000, "cookie_requests_checked": 50000, "loopback_scenarios": 1200, "audit_net_events": 60000, "ops_with_transport_failure": 8000}}
+MIN_COUNTERS = {"quick": {"scenarios": 780, "ops_checked": 2500, "dryrun_ops": 500, "posts_checked": 1700, "cookie_requests_checked": 1700, "loopback_scenarios": 60, "ops_redirected": 60, "audit_net_events": 2400, "ops_with_transport_failure": 400},
+                "thorough": {"scenarios": 15000, "ops_checked": 50000, "dryrun_ops": 10000, "posts_checked": 38000, "cookie_requests_checked": 38000, "loopback_scenarios": 1200, "ops_redirected": 1400, "audit_net_events": 48000, "ops_with_transport_failure": 8000}}
 
 OPS = ["stmt", "stmtend", "acctinfo", "tax", "profile", "stmt", "acctinfo", "profile-override"]
 
@@ -52,6 +52,9 @@ def timeout(tier):
 def clear_cache():
     from ofxtools import config
     shutil.rmtree(config.DATADIR / "fiprofiles", ignore_errors=True)
+
+
+REDIRECTS = ["redirect-307", "redirect-308", "redirect-302", "redirect-301", "redirect-303", "redirect-307"]
 
 
 def gen_scenario(rng, idx, loopback_base=None):
@@ -86,7 +89,9 @@ def gen_scenario(rng, idx, loopback_base=None):
         c = rng.choice(clients)
         ops.append({"client": c["tag"], "op": rng.choice(OPS), "mode": rng.choice(["normal", "normal", "dryrun", "skip"]),
                     # the server (fake transport only) takes the operation's own request and then fails: still exactly one POST of it
-                    "fault": None if loopback_base else rng.choice([None] * 12 + ["timeout", "http500", "reset", "timeout"])})
+                    # ... or (real server only) answers it with a redirect to some other place: whatever the HTTP layer makes of that,
+                    # the user's credentials must not travel there
+                    "fault": rng.choice([None] * 5 + REDIRECTS) if loopback_base else rng.choice([None] * 12 + ["timeout", "http500", "reset", "timeout"])})
     return {"idx": idx, "clients": clients, "ops": ops, "loopback": bool(loopback_base)}
 
 
@@ -115,6 +120,10 @@ class Recorder:
             self.cookie_owner[val] = tag
             headers.append(("Set-Cookie", f"SID={val}; Path=/"))
         fault = getattr(self, "fault", None)
+        if fault and fault.startswith("redirect-") and (b"<PROFRQ>" not in body or self.fault_on_profile):
+            if "/elsewhere/" in rec["url"]:
+                return Reply(ofxserver.statement_ok())
+            return Reply(b"", status=int(fault[-3:]), headers=[("Location", rec["url"].split("/", 3)[0] + "//" + rec["url"].split("/", 3)[2] + f"/elsewhere/{tag}")])
         if fault and (b"<PROFRQ>" not in body or self.fault_on_profile):
             import urllib.error
             exc = {"timeout": TimeoutError("timed out (injected after the request was received)"),
@@ -206,6 +215,20 @@ def check_history(ctx, scen, history, rec):
             for p in posts:
                 if c["password"].encode() in (p["body"] or b"") and p["url"] not in adv:
                     ctx.violation("credentials-to-unadvertised-url", f"client {c['tag']} {tag}: profile advertises {sorted(adv)}, credentials POSTed to {p['url']}", case)
+            continue
+        if (op.get("fault") or "").startswith("redirect-") and op["mode"] != "dryrun":
+            # the server answered with a redirect.  What the call then does (fail, or fetch the new place without a body) is the
+            # HTTP layer's business and not judged; the credentials going along to a place no profile advertises is
+            ctx.count("ops_redirected")
+            for p in posts:
+                if "/elsewhere/" not in p["url"]:
+                    continue
+                ctx.count("requests_to_redirect_target")
+                carried = [owner for canary, owner in all_canaries.items()
+                           if canary.encode() in (p["body"] or b"") or canary in p["url"] or any(canary in str(v) for v in p["headers"].values())]
+                if carried:
+                    ctx.violation(f"credentials-follow-redirect/{op['fault'][-3:]}", f"client {c['tag']} {tag}: the server answered {op['fault']}; a {p['method']} carrying the "
+                                  f"password of client {carried[0]} went to {p['url']}, which no profile advertises", case)
             continue
         if op.get("fault") and op["mode"] != "dryrun":
             # the server failed after taking the request: the call fails, and the request was sent once - not repeated behind the caller's back
